@@ -276,6 +276,65 @@ def label_lines(lines, fnname, section_default=None):
     return out
 
 
+
+def retarget_for_to_while(part, loops, bm):
+    """R34: a `for` loop that the proof hints address through its ghost iterator (`#! loop N iter=it`) was rewritten as
+    `let mut I = 0; while I < BOUND { ...; I += 1; }`: the hints are re-targeted to the counter (`it.index@` -> `(I as int)`),
+    hint lines that use anything else of the iterator (`it.seq()`) are dropped, and the counter's own invariant and measure
+    are added.  Only this one shape is recognised; anything else stays a lost anchor."""
+    done = []
+    new_loops = {}
+    subst = {}
+    for n, lp in part['loops'].items():
+        it = lp['kv'].get('iter')
+        if not it or n < 1 or n > len(loops) or loops[n - 1][2] == 'for':
+            new_loops[n] = lp
+            continue
+        s0, ob, kw = loops[n - 1]
+        if kw != 'while':
+            new_loops[n] = lp
+            continue
+        m = re.match(r'while\s+(\w+)\s*<\s*(.+?)\s*$', bm[s0:ob].strip())
+        if not m:
+            new_loops[n] = lp
+            continue
+        idx, bound = m.group(1), m.group(2)
+        end = match_brace(bm, ob)
+        if not re.search(r'\b%s\s*\+=\s*1\s*;' % re.escape(idx), bm[ob:end]):
+            new_loops[n] = lp
+            continue
+        subst[it] = idx
+        text = []
+        for l in lp['text']:
+            l2 = re.sub(r'\b%s\.index@' % re.escape(it), '(%s as int)' % idx, l)
+            if re.search(r'\b%s\.' % re.escape(it), l2):
+                continue
+            text.append(l2)
+        # counter facts
+        if text and text[0].strip().startswith('invariant'):
+            text = [text[0], '        %s <= %s,' % (idx, bound)] + text[1:]
+        else:
+            text = ['    invariant %s <= %s,' % (idx, bound)] + text
+        text.append('    decreases %s - %s,' % (bound, idx))
+        kv2 = dict(lp['kv'])
+        kv2.pop('iter', None)
+        new_loops[n] = dict(lp, kv=kv2, text=text)
+        done.append((n, it, idx))
+    if not done:
+        return part, []
+    ats = []
+    for at in part['ats']:
+        text = []
+        for l in at['text']:
+            l2 = l
+            for it, idx in subst.items():
+                l2 = re.sub(r'\b%s\.index@' % re.escape(it), '(%s as int)' % idx, l2)
+            if any(re.search(r'\b%s\.' % re.escape(it), l2) for it in subst):
+                continue
+            text.append(l2)
+        ats.append(dict(at, text=text))
+    return dict(part, loops=new_loops, ats=ats), done
+
 def build_fn(part, sf, unit, opts, canary=None, drop_hints=()):
     kv = part['kv']
     it = sf.find_fn(part['qual'], kv.get('impl'))
@@ -355,6 +414,9 @@ def build_fn(part, sf, unit, opts, canary=None, drop_hints=()):
     if kv.get('assumed'):
         part = dict(part, loops={}, ats=[])   # nothing is inserted into a stub body
     anchors_lost = None
+    retargeted = []
+    if not kv.get('assumed'):
+        part, retargeted = retarget_for_to_while(part, loops, bm)
     try:
         if fnname in drop_hints or part['qual'] in drop_hints:
             raise LostAnchor('fn %s: a proof hint no longer compiles (names a local that does not exist any more)' % part['qual'])
@@ -458,7 +520,7 @@ def build_fn(part, sf, unit, opts, canary=None, drop_hints=()):
             'assumed': bool(kv.get('assumed')), 'props': kv.get('props', '').split(',') if kv.get('props') else None,
             'has_requires': any('requires' == (m.get('section')) for _, m in label_lines(part['contract'], fnname)),
             'clauses': sorted({m['clause'] for _, m in label_lines(part['contract'], fnname) if m.get('clause') and m.get('section') == 'ensures'}),
-            'anchors_lost': anchors_lost, 'termination_unproved': term_unproved,
+            'anchors_lost': anchors_lost, 'termination_unproved': term_unproved, 'retargeted_loops': retargeted,
             'ncanary': ncanary, 'nloops_contracted': len(part['loops']),
             'body_tokens': len(body.split()), 'body_tokens_out': len(body2.split())}
     return segs, info
